@@ -69,7 +69,7 @@ def snapshot(o):
     if isinstance(o, np.ndarray):
         return ("nd", o.shape, str(o.dtype), hashlib.sha1(np.ascontiguousarray(o).tobytes()).hexdigest())
     if isinstance(o, np.generic):
-        return repr(o.item())
+        return ("np", type(o).__name__, repr(o.item()))       # type-aware: np.int64(2) turning into 2 is a change
     if isinstance(o, ATOMS):
         return repr(o)
     if callable(o):
